@@ -7,7 +7,9 @@ package pq
 // two chunks, header fill-in, CommitEvent, ReserveHdr — with event sizes chosen
 // by the solver around every page/header boundary, symbolic payload and header
 // bytes and a symbolic first event id, then a simulated flush (UnmarkDirty of
-// the range returned by Pages, Reset(last)) and further events.  An independent
+// the range returned by Pages, Reset(last)), optionally a re-creation of the
+// buffer from the image of the flushed tail page (what a reopened queue's
+// writer does: UpdateHeader, NewPageWith, newBuffer(tail)), and further events.  An independent
 // reference places the same byte stream into pages ("an event header is never
 // split; payload fills a page to its end").  After every event:
 //   - the page list holds exactly the reference bytes, EndOff is their end,
@@ -197,6 +199,30 @@ func VerifPqBuffer() {
 		check("after Reset")
 		s2, e2, n2 := b.Pages()
 		verifAssert(n2 == 0 && (s2 == nil || s2 == e2), "nothing to flush right after a flush")
+	}
+	// optionally: the writer is re-created on the flushed tail page (queue reopen):
+	// UpdateHeader + page image -> NewPageWith -> newBuffer(tail) -> ReserveHdr
+	if last != nil && verifParam("reload", 1) != 0 && verifChoose(2) == 1 {
+		verifLog("writer re-created on the tail page")
+		endOff := int(last.Meta.EndOff)
+		if last == b.eventHdrPage {
+			endOff = b.eventHdrOffset
+		}
+		last.UpdateHeader()
+		img := make([]byte, ps)
+		copy(img, last.Data)
+		pool2 := newPagePool(ps)
+		tail := pool2.NewPageWith(7, img)
+		tail.Meta.EndOff = uint32(endOff)
+		b = newBuffer(pool2, tail, npages, ps, szEventPageHeader)
+		r := ref[base]
+		r.data = r.data[:endOff-szEventPageHeader]
+		verifAssert(r.committed == len(r.data) && r.flushed == r.committed, "the tail position is the end of the flushed events")
+		ref = []*refPage{r}
+		base = 0
+		verifAssert(b.ReserveHdr(szEventHeader) != nil, "ReserveHdr of an event header succeeds")
+		refReserve()
+		check("after re-creating the buffer on the tail page")
 	}
 	n2 := verifParam("events2", 1)
 	for k := 0; k < n2; k++ {
